@@ -62,7 +62,11 @@ class Window:
                 target = _orig['realpath'](ap)
             else:
                 d, b = os.path.split(ap.rstrip('/') or '/')
-                target = os.path.join(_orig['realpath'](d or '/'), b)
+                if b in ('.', '..'):
+                    # not a directory entry of its own: the kernel walks it
+                    target = _orig['realpath'](ap)
+                else:
+                    target = os.path.join(_orig['realpath'](d or '/'), b)
         except (OSError, ValueError):
             target = os.path.normpath(ap)
         inside = any(target == r or target.startswith(r + os.sep)
@@ -110,7 +114,11 @@ def _audit(event, args):
             w.classify(event, args[0], False, True)
         elif event in ('os.listdir', 'os.scandir', 'os.chdir'):
             w.classify(event, args[0], True)
-        elif event in ('os.chmod', 'os.chown', 'os.utime', 'os.truncate'):
+        elif event in ('os.chmod', 'os.chown', 'os.utime'):
+            # (judged by the wrappers below, which see follow_symlinks)
+            if not getattr(_state, 'in_modwrap', False):
+                w.classify(event, args[0], True, True)
+        elif event == 'os.truncate':
             w.classify(event, args[0], True, True)
         elif event == 'os.rename':
             w.classify('os.rename:src', args[0], False, True)
@@ -147,6 +155,32 @@ def _wrap(name, kind, follow):
     setattr(os, name, wrapper)
 
 
+def _wrapmod(name, kind):
+    """chmod / chown / utime: the audit event does not say whether a final
+       symbolic link is followed, the keyword argument does"""
+
+    orig = getattr(os, name)
+    _orig[name] = orig
+
+    def wrapper(path, *a, **kw):
+        w = _win()
+        if w is None or getattr(_state, 'busy', False):
+            return orig(path, *a, **kw)
+        _state.busy = True
+        try:
+            w.classify(kind, path, kw.get('follow_symlinks', True), True)
+        finally:
+            _state.busy = False
+        _state.in_modwrap = True
+        try:
+            return orig(path, *a, **kw)
+        finally:
+            _state.in_modwrap = False
+
+    wrapper.__name__ = name
+    setattr(os, name, wrapper)
+
+
 def install():
     global _installed
     if _installed:
@@ -159,6 +193,9 @@ def install():
     _wrap('readlink', 'os.readlink', False)
     _wrap('statvfs', 'os.statvfs', True)
     _wrap('access', 'os.access', True)
+    _wrapmod('chmod', 'os.chmod')
+    _wrapmod('chown', 'os.chown')
+    _wrapmod('utime', 'os.utime')
 
     import posixpath
     real = posixpath.realpath
